@@ -255,6 +255,11 @@ def check(case):
         g = np.array(m.far_field.gain)
         zen, azi = np.array(m.far_field.zen).T, np.array(m.far_field.azi).T
         et, ep = np.array(m.far_field.e_theta).T, np.array(m.far_field.e_phi).T
+        if not (et.shape == ep.shape == zen.shape == azi.shape == g.shape[:2] == (th[2], ph[2])):
+            fails.append(('structure:far-field-array-shapes', 'e_theta %s, e_phi %s, zen %s, azi %s, gain %s for %d x %d directions'
+                          % (np.shape(m.far_field.e_theta), np.shape(m.far_field.e_phi), np.shape(m.far_field.zen),
+                             np.shape(m.far_field.azi), g.shape, th[2], ph[2])))
+            return Result(fails=fails, nontrivial=True, labels=sorted(set(labels)))
         order = [(i, j) for j in range(ph[2]) for i in range(th[2])]
         if 'far-field' in opts:
             rows = (rep.get('far_db') or {}).get('rows')
